@@ -69,6 +69,13 @@ def onBucket (h : Ht2 DRec) (hash : UInt32) (g : List (UInt32 × DRec) → List 
 /-- `lydict_init` with a starting size (the code uses `LYDICT_MIN_SIZE`) -/
 def Dict.init (size : Nat) : Dict := { ht := Ht2.new size 1 }
 
+/-- what `dict_insert` does to `*match` after a successful insertion: non-zerocopy — `match->value = malloc(len + 1)` + copy of
+the first `len` bytes; zerocopy — the caller's pointer now belongs to the dictionary -/
+def adopt (zc : Bool) (key : Bytes) (r : UInt32 × DRec) : UInt32 × DRec :=
+  if zc then (r.1, { r.2 with own := true }) else (r.1, { r.2 with str := key, own := true })
+
+def incr (r : UInt32 × DRec) : UInt32 × DRec := (r.1, { r.2 with ref := r.2.ref + 1 })
+
 /-- `dict_insert(ctx, value, len, zerocopy, str_p)`.  `value` = the caller's whole buffer up to its NUL,
 `len ≤ value.length`; `alias` = the caller's pointer is itself the dictionary's pointer of the string `value`. -/
 def Dict.insert (H : Bytes → UInt32) (d : Dict) (value : Bytes) (len : Nat) (zc alias : Bool) : DRes × Dict :=
@@ -78,46 +85,45 @@ def Dict.insert (H : Bytes → UInt32) (d : Dict) (value : Bytes) (len : Nat) (z
   match d.ht.insert (valEq len) (some resizeEq) true true rec0 hash with
   | (.exist _, ht) =>
     -- match->refcount++
-    (.ok key, { ht := onBucket ht hash (modFirst (Ht2.hit (valEq len) true rec0 hash)
-                  fun r => (r.1, { r.2 with ref := r.2.ref + 1 })) })
+    (.ok key, { ht := onBucket ht hash (modFirst (Ht2.hit (valEq len) true rec0 hash) incr) })
   | (.ok _, ht) =>
     -- `match` is the new record (no resize) or whatever `lyht_find` with pointer equality returned (after a resize)
-    let fix : UInt32 × DRec → UInt32 × DRec := fun r =>
-      if zc then (r.1, { r.2 with own := true }) else (r.1, { r.2 with str := key, own := true })
-    let ht' := if ht.size = d.ht.size then onBucket ht hash (modLast fix)
-               else onBucket ht hash (modFirst (Ht2.hit resizeEq false rec0 hash) fix)
+    let ht' := if ht.size = d.ht.size then onBucket ht hash (modLast (adopt zc key))
+               else onBucket ht hash (modFirst (Ht2.hit resizeEq false rec0 hash) (adopt zc key))
     (.ok key, { ht := ht' })
   | (.notfound, ht) => (.notfound, { ht := ht })
   | (.eint, ht) => (.eint, { ht := ht })
   | (.full, ht) => (.full, { ht := ht })
 
+/-- the record built on the stack for a lookup (`rec.value = value`) -/
+def probe (value : Bytes) (own : Bool) : DRec := { str := value, ref := 0, own := own }
+
+def decr (r : UInt32 × DRec) : UInt32 × DRec := (r.1, { r.2 with ref := r.2.ref - 1 })
+/-- `ret = lyht_remove_with_resize_cb(...); free(val_p); LY_CHECK_ERR_GOTO(ret, LOGINT(ctx), finish)` -/
+def finishRemove : Res DRec × Ht2 DRec → DRes × Dict
+  | (.ok _, ht2) => (.done, { ht := ht2 })
+  | (.notfound, ht2) => (.notfound, { ht := ht2 })
+  | (_, ht2) => (.eint, { ht := ht2 })
+
 /-- `lydict_remove(ctx, value)` -/
 def Dict.remove (H : Bytes → UInt32) (d : Dict) (value : Bytes) : DRes × Dict :=
   let len := value.length
   let hash := H value
-  let rec0 : DRec := { str := value, ref := 0, own := false }
-  match d.ht.find (valEq len) rec0 hash with
+  match d.ht.find (valEq len) (probe value false) hash with
   | none => (.notfound, d)
   | some m =>
     -- match->refcount--
-    let ht1 := onBucket d.ht hash (modFirst (Ht2.hit (valEq len) false rec0 hash)
-                  fun r => (r.1, { r.2 with ref := r.2.ref - 1 }))
-    if m.ref - 1 = 0 then
-      match ht1.remove (valEq len) (some resizeEq) rec0 hash with
-      | (.ok _, ht2) => (.done, { ht := ht2 })
-      | (.notfound, ht2) => (.notfound, { ht := ht2 })
-      | (_, ht2) => (.eint, { ht := ht2 })
+    let ht1 := onBucket d.ht hash (modFirst (Ht2.hit (valEq len) false (probe value false) hash) decr)
+    if m.ref - 1 = 0 then finishRemove (ht1.remove (valEq len) (some resizeEq) (probe value false) hash)
     else (.done, { ht := ht1 })
 
 /-- `dict_dup(ctx, value, str_p)`; `alias` = `value` is the dictionary's own pointer of that string -/
 def Dict.dup (H : Bytes → UInt32) (d : Dict) (value : Bytes) (alias : Bool) : DRes × Dict :=
   let hash := H value
-  let rec0 : DRec := { str := value, ref := 0, own := alias }
-  match d.ht.find resizeEq rec0 hash with
+  match d.ht.find resizeEq (probe value alias) hash with
   | none => (.notfound, d)
   | some m =>
-    (.ok m.str, { ht := onBucket d.ht hash (modFirst (Ht2.hit resizeEq false rec0 hash)
-                    fun r => (r.1, { r.2 with ref := r.2.ref + 1 })) })
+    (.ok m.str, { ht := onBucket d.ht hash (modFirst (Ht2.hit resizeEq false (probe value alias) hash) incr) })
 
 /-- what `lydict_clean` would report: every record still stored, in `LYHT_ITER_ALL_RECS` order -/
 def Dict.content (d : Dict) : List (Bytes × Nat) := d.ht.toList.map fun r => (r.2.str, r.2.ref)
